@@ -137,6 +137,16 @@ def anchor(run, p):
             ok = got == ['^abc$', '^[a-z]+\\d$', '^$']
         except (Unsupported, Raised) as e:
             raise AnalysisError('%s is not evaluable: %s' % (bound, e))
+    else:
+        # bound some other way (a conditional expression, a def under the test ...): whatever the module-level name denotes, evaluated
+        try:
+            I = Interp(p)
+            val = I.expr(ast.Name('poss_term_re', ast.Load()), {}, m)
+            got = [I.apply(val, [x], {}) for x in ('abc', '[a-z]+\\d', '')]
+            ok = got == ['^abc$', '^[a-z]+\\d$', '^$']
+            bound = 'the module-level poss_term_re'
+        except (Unsupported, Raised) as e:
+            raise AnalysisError('poss_term_re is not evaluable: %s' % e)
     run.ob('C13-ANCHOR', 'poss_term_re', ok, 'poss_term_re is %s, which wraps an expression as %s' % (bound, got), rel=m.rel, line=1)
     for name in ('vrle2re', 'rle2re'):
         f = p.method('Extractor', name)
